@@ -22,6 +22,7 @@ import (
 )
 
 type family struct {
+	base    []int // owner vector of the base layout
 	name    string
 	s       *fedlab.Supergraph
 	u       *fedlab.Universe
@@ -62,6 +63,7 @@ func coreFamily(run *vk.Run) *family {
 			base[i] = 1
 		}
 	}
+	f.base = base
 	f.layouts = append(f.layouts, fedlab.NewLayout(s, 1, make([]int, len(d)), "mono"))
 	if run.Thorough() {
 		f.layouts = append(f.layouts, fedlab.NearLayouts(s, 2, base, 2)...)
@@ -206,6 +208,19 @@ func judgeSubscription(f *family, lab *fedlab.Lab, q, opName string, opVars map[
 	return fmt.Sprintf("sub frames=%d reqs=%d", len(w.Frames), len(reqs)), fails
 }
 
+func distance(a, b []int) int {
+	if len(a) != len(b) {
+		return 99
+	}
+	d := 0
+	for i := range a {
+		if a[i] != b[i] {
+			d++
+		}
+	}
+	return d
+}
+
 func suffixOf(name string) string {
 	if strings.HasSuffix(name, "+nullentities") {
 		return "+nullentities"
@@ -329,6 +344,7 @@ func nearFamily(run *vk.Run, name string, s *fedlab.Supergraph, u *fedlab.Univer
 	for i, r := range d {
 		bv[i] = base(r)
 	}
+	f.base = bv
 	f.layouts = append(f.layouts, fedlab.NewLayout(s, 1, make([]int, len(d)), "mono"))
 	if run.Thorough() {
 		f.layouts = append(f.layouts, fedlab.NearLayouts(s, 2, bv, 2)...)
@@ -505,12 +521,32 @@ func TestCheck(t *testing.T) {
 	}
 	var caseNo int64
 	var layoutNo int64
+	// layouts of all families interleaved, so that an internal deadline cuts every
+	// family evenly instead of never reaching the later ones
+	type work struct {
+		f *family
+		l *fedlab.Layout
+	}
+	var works []work
+	for i := 0; ; i++ {
+		any := false
+		for _, f := range fams {
+			if i < len(f.layouts) {
+				works = append(works, work{f, f.layouts[i]})
+				any = true
+			}
+		}
+		if !any {
+			break
+		}
+	}
 	for _, f := range fams {
 		run.Bound(f.name+".layouts", len(f.layouts))
 		run.Bound(f.name+".base_ops", len(f.ops))
-		for li, l := range f.layouts {
-			// a layout belongs to one shard: the engine (and its plan cache) is built once
-			_ = li
+	}
+	{
+		for _, wk := range works {
+			f, l := wk.f, wk.l
 			layoutNo++
 			if !run.Mine(layoutNo) {
 				continue
@@ -532,7 +568,7 @@ func TestCheck(t *testing.T) {
 				// the monolith); thorough: on every federated layout
 				decorate := oi%7 == 0
 				if l.N > 1 {
-					decorate = run.Thorough() || l.Name == "near0" || l.Name == "near0+provides" || l.Name == "near0+nullentities"
+					decorate = (run.Thorough() && distance(l.OwnerVector(), f.base) <= 1) || l.Name == "near0" || l.Name == "near0+provides" || l.Name == "near0+nullentities"
 				}
 				if decorate {
 					variants = append(variants, fedlab.Decorate(base, f.schema)...)
